@@ -211,6 +211,28 @@ def run(pid, tier):
     except Exception as e:
         traces.append([{"ev": "cfg", "words": [], "reserved": [], "clauses": CLAUSES}, {"ev": "exc", "what": "secret stage: %r" % (e,)}])
         meta.append({"cfg": {"stage": "secrets"}, "texts": [None, ("secret-stage", "EXC")]})
+    # very long lines (one-line dumps): a listed word lying across an 8 KiB / 16 KiB / 64 KiB boundary is still replaced
+    try:
+        words = ["kitten", "zurnet"]
+        fa = AF.FileAnonymizer(anon_pwd=False, anon_ip=False, salt="longline", sensitive_words=words)
+        ll = [" " * (b - off) + w + "-gw tail " + w for b in (8192, 16384, 65536) for off, w in ((3, "kitten"), (5, "ZURNET"), (1, "kitten"))][: 9 if tier == "thorough" else 5]
+        buf = io.StringIO()
+        fa.anonymize_io(io.StringIO("\n".join(ll) + "\n"), buf)
+        outs = buf.getvalue().split("\n")[:-1]
+        ev = [{"ev": "cfg", "words": [cps(w) for w in words], "reserved": [], "clauses": ["Survivor"]}]
+        texts = [None]
+        if len(outs) != len(ll):
+            ev.append({"ev": "exc", "what": "long lines: %d lines in, %d lines out" % (len(ll), len(outs))})
+            texts.append(("long-lines", "LINECOUNT"))
+        else:
+            for ln, o in zip(ll, outs):
+                ev.append({"ev": "line", "in": cps(ln), "out": cps(o)})
+                texts.append(("long-lines", "%r -> %r" % (ln.strip()[:60], o.strip()[:60])))
+        traces.append(ev)
+        meta.append({"cfg": {"words": words, "reserved": [], "salt": "longline", "stage": "long lines"}, "texts": texts})
+    except Exception as e:
+        traces.append([{"ev": "cfg", "words": [], "reserved": [], "clauses": CLAUSES}, {"ev": "exc", "what": "long lines: %r" % (e,)}])
+        meta.append({"cfg": {"stage": "long lines"}, "texts": [None, ("long-lines", "EXC")]})
     # the same through the command line: -r words with capitals reach both stages as written (with and without -w)
     import subprocess
     cb = tlc.subdir("c10cli")
